@@ -132,30 +132,39 @@ def ch_sfn(c: Dict[str, Any]) -> Dict[str, Any]:
     return {"name": str(out), "base": FeatureGroup.get_column_base_feature(c["name"])}
 
 
-def build_world(world: Dict[str, Any], obs_cols: Dict[int, List[Any]]) -> Tuple[List[Any], Any, Any]:
-    """world spec -> (classes, links or None, global filter or None)"""
+_WORLDS: Dict[int, Dict[str, Any]] = {}  # child: world specs by id (shipped once per batch)
+_BUILT: Dict[int, Tuple[List[Any], Dict[int, List[Any]]]] = {}  # child: generated classes per world (built once)
+
+
+def build_world(world: Dict[str, Any]) -> Tuple[List[Any], Any, Any, Dict[int, List[Any]]]:
+    """world spec -> (classes, fresh links or None, fresh global filter or None, observation sink)"""
     from harness import fgfactory as F
     from mloda.core.abstract_plugins.components.link import JoinSpec, Link
     from mloda.core.filter.global_filter import GlobalFilter
 
     fw = F.FW_SHORT[world["fw"]]
-    classes: List[Any] = []
-    for gi, g in enumerate(world["groups"]):
+    if world["id"] not in _BUILT:
+        obs_cols: Dict[int, List[Any]] = {}
+        classes: List[Any] = []
+        for gi, g in enumerate(world["groups"]):
 
-        def after(cls: Any, data: Any, features: Any, result: Any, gi: int = gi) -> None:
-            obs_cols.setdefault(gi, []).append([sorted(features.get_all_names()), F.columns_of(result)])
+            def after(cls: Any, data: Any, features: Any, result: Any, gi: int = gi, obs_cols: Dict[int, List[Any]] = obs_cols) -> None:
+                obs_cols.setdefault(gi, []).append([sorted(features.get_all_names()), F.columns_of(result)])
 
-        extra: Dict[str, Any] = {}
-        if g.get("nosup"):
-            extra["feature_names_supported"] = classmethod(lambda cls: set())
-        if g["kind"] == "root":
-            cls = F.make_group(
-                F.uniq("W03r_"), root_data=g["data"], multi=g.get("multi") or None, frameworks={fw},
-                index_columns=[tuple(i) for i in g["index"]] if g.get("index") else None, hooks={"after_calc": after}, extra=extra or None,
-            )  # fmt: skip
-        else:
-            cls = F.make_group(F.uniq("W03d_"), derived=g["derived"], multi=g.get("multi") or None, frameworks={fw}, hooks={"after_calc": after})
-        classes.append(cls)
+            extra: Dict[str, Any] = {}
+            if g.get("nosup"):
+                extra["feature_names_supported"] = classmethod(lambda cls: set())
+            if g["kind"] == "root":
+                cls = F.make_group(
+                    F.uniq("W03r_"), root_data=g["data"], multi=g.get("multi") or None, frameworks={fw},
+                    index_columns=[tuple(i) for i in g["index"]] if g.get("index") else None, hooks={"after_calc": after}, extra=extra or None,
+                )  # fmt: skip
+            else:
+                cls = F.make_group(F.uniq("W03d_"), derived=g["derived"], multi=g.get("multi") or None, frameworks={fw}, hooks={"after_calc": after})
+            classes.append(cls)
+        _BUILT[world["id"]] = (classes, obs_cols)
+    classes, obs_cols = _BUILT[world["id"]]
+    obs_cols.clear()
     links = None
     if world.get("links"):
         links = {Link.inner(JoinSpec(classes[a], ka), JoinSpec(classes[b], kb)) for a, ka, b, kb in world["links"]}
@@ -164,7 +173,7 @@ def build_world(world: Dict[str, Any], obs_cols: Dict[int, List[Any]]) -> Tuple[
         gf = GlobalFilter()
         for name, ftype, param in world["filters"]:
             gf.add_filter(name, ftype, param)
-    return classes, links, gf
+    return classes, links, gf, obs_cols
 
 
 def ch_e2e(c: Dict[str, Any]) -> Dict[str, Any]:
@@ -173,9 +182,8 @@ def ch_e2e(c: Dict[str, Any]) -> Dict[str, Any]:
     from mloda.user import mloda
     from mloda.core.core.step.feature_group_step import FeatureGroupStep
 
-    world = c["world"]
-    obs_cols: Dict[int, List[Any]] = {}
-    classes, links, gf = build_world(world, obs_cols)
+    world = _WORLDS[c["wid"]]
+    classes, links, gf, obs_cols = build_world(world)
     gidx = {cls: i for i, cls in enumerate(classes)}
     kwargs: Dict[str, Any] = dict(compute_frameworks={F.FW_SHORT[world["fw"]]}, plugin_collector=F.collector(set(classes)), column_ordering=c["order"])
     if links is not None:
@@ -215,9 +223,11 @@ def child_main() -> None:
     import logging
 
     logging.disable(logging.CRITICAL)
-    cases = json.load(sys.stdin)
+    batch = json.load(sys.stdin)
+    for w in batch["worlds"]:
+        _WORLDS[w["id"]] = w
     outs = []
-    for c in cases:
+    for c in batch["cases"]:
         try:
             o = CHILD[c["kind"]](c)
         except BaseException:
@@ -233,13 +243,13 @@ def child_main() -> None:
 # ======================================================================================
 
 
-def run_children(batches: Dict[int, List[Dict[str, Any]]], workers: int) -> Dict[int, List[Dict[str, Any]]]:
+def run_children(batches: Dict[int, List[Dict[str, Any]]], worlds: List[Dict[str, Any]], workers: int) -> Dict[int, List[Dict[str, Any]]]:
     from harness.core import env_for_subprocess, VERIF
 
     def one(seed: int) -> Tuple[int, List[Dict[str, Any]]]:
         env = env_for_subprocess()
         env["PYTHONHASHSEED"] = str(seed)
-        p = subprocess.run(["/venv/bin/python", "-m", "harness.corr.c03", "--child"], input=json.dumps(batches[seed]), cwd=str(VERIF), env=env,
+        p = subprocess.run(["/venv/bin/python", "-m", "harness.corr.c03", "--child"], input=json.dumps({"worlds": worlds, "cases": batches[seed]}), cwd=str(VERIF), env=env,
                            stdout=subprocess.PIPE, stderr=subprocess.PIPE, text=True, timeout=1500)  # fmt: skip
         if MARK not in p.stdout:
             raise RuntimeError(f"C03 child (seed {seed}) produced no result rc={p.returncode}\n{p.stderr[-1500:]}")
@@ -538,10 +548,10 @@ def run(ctx: Any) -> None:
         meta[seed].append(m)
 
     # ---- function level ---------------------------------------------------------------------
-    for _ in range(ctx.budget(1800, 20000)):
+    for _ in range(ctx.budget(4000, 30000)):
         c = gen_identify_case(rng)
         ship(rng.choice(seeds), c, {"suite": "identify_fn"})
-    for _ in range(ctx.budget(600, 6000)):
+    for _ in range(ctx.budget(1500, 9000)):
         c = gen_identify_case(rng)
         fw = rng.choice(["pa", "pd", "py"])
         c["kind"] = "select"
@@ -568,12 +578,12 @@ def run(ctx: Any) -> None:
     # ---- end to end -------------------------------------------------------------------------
     worlds: List[Dict[str, Any]] = []
     infos: List[Dict[str, Any]] = []
-    nworlds = ctx.budget(36, 240)
+    nworlds = ctx.budget(90, 160)
     for wid in range(nworlds):
         w = gen_world(rng, wid)
         worlds.append(w)
         infos.append(world_info(w))
-    max_sub = 3 if ctx.quick else 5
+    max_sub = 4 if ctx.quick else 5
     for w, info in zip(worlds, infos):
         reqable = info["requestable"]
         subsets: List[Tuple[str, ...]] = []
@@ -604,14 +614,14 @@ def run(ctx: Any) -> None:
             for order in ORDERINGS:
                 for perm in perms:
                     for seed in rng.sample(seeds, 2 if ctx.quick else 3):
-                        ship(seed, {"kind": "e2e", "world": w, "request": list(perm), "order": order}, {"suite": "e2e", "wid": w["id"]})
+                        ship(seed, {"kind": "e2e", "wid": w["id"], "request": list(perm), "order": order}, {"suite": "e2e", "wid": w["id"]})
     # malformed stream: unknown feature, duplicate string, invalid ordering
     for w, info in zip(worlds[: ctx.budget(12, 60)], infos):
         good = rng.choice([n for n in info["requestable"] if "~" not in n])
         for req, order in (([good, "zz_unknown"], None), ([good, good], None), ([good], "Alphabetical"), (["zz_unknown~1"], "alphabetical")):
-            ship(rng.choice(seeds), {"kind": "e2e", "world": w, "request": req, "order": order}, {"suite": "e2e_malformed", "wid": w["id"]})
+            ship(rng.choice(seeds), {"kind": "e2e", "wid": w["id"], "request": req, "order": order}, {"suite": "e2e_malformed", "wid": w["id"]})
 
-    results = run_children(batches, workers=min(len(seeds), ctx.budget(6, 12)))
+    results = run_children(batches, worlds, workers=min(len(seeds), ctx.budget(6, 12)))
 
     # ---- model requests -----------------------------------------------------------------------
     reqs: List[Dict[str, Any]] = []
@@ -636,8 +646,8 @@ def run(ctx: Any) -> None:
                 reqs.append({"op": "C03.baseName", "name": enc(c["name"])})
                 slots.append((s, i, "base"))
             elif k == "e2e":
-                info = infos[c["world"]["id"]]
-                mw = model_world(c["world"], info)
+                info = infos[c["wid"]]
+                mw = model_world(worlds[c["wid"]], info)
                 reqs.append({"op": "C03.flags", **mw, "request": encs(c["request"]), "fuel": 16, "order": c["order"]})
                 slots.append((s, i, "flags"))
                 if "steps" in o:
@@ -646,7 +656,7 @@ def run(ctx: Any) -> None:
                         rec = [r for r in o["obs"].get(str(st["g"]), []) if r[0] == st["names"]]
                         cols = rec[0][1] if rec else []
                         steps.append({"flagged": encs(st["flagged"]), "cols": encs(cols)})
-                    reqs.append({"op": "C03.tables", "fw": c["world"]["fw"], "order": c["order"], "steps": steps})
+                    reqs.append({"op": "C03.tables", "fw": worlds[c["wid"]]["fw"], "order": c["order"], "steps": steps})
                     slots.append((s, i, "tables"))
     outs = ctx.lean.batch(reqs)
     model: Dict[Tuple[int, int, str], Any] = {sl: o for sl, o in zip(slots, outs)}
@@ -720,7 +730,9 @@ def run(ctx: Any) -> None:
                 if impl["name"] != mo_n or impl["base"] != mo_b:
                     ctx.disagree(suite, c, impl, {"name": mo_n, "base": mo_b})
             elif k == "e2e":
-                info = infos[c["world"]["id"]]
+                info = infos[c["wid"]]
+                world = worlds[c["wid"]]
+                c = dict(c, world=world)  # full case for reports / replays
                 request, order = c["request"], c["order"]
                 mf = model[(s, i, "flags")]
                 malformed = suite == "e2e_malformed"
